@@ -652,6 +652,8 @@ func pubsubHarness(rc *RunCtx) {
 				rc.Violate("C09", "pubsub-context-differs", key, fmt.Sprintf("%s: published headers %q cid %q, subscriber saw %q cid %q", where, m.hdr, m.cid, gh, m.gotCid))
 			}
 			if m.gotTimeout != m.timeout {
+				// (the timeout travels as a request header of the publisher's FContext: C07 names those headers too)
+				rc.Violate("C07", "publisher-timeout-differs", key, fmt.Sprintf("%s: published with timeout %v, subscriber context reports %v", where, m.timeout, m.gotTimeout))
 				rc.Violate("C09", "pubsub-timeout-differs", key, fmt.Sprintf("%s: published with timeout %v, subscriber context reports %v", where, m.timeout, m.gotTimeout))
 			}
 			if m.gotOpid == "" || m.gotOpid == m.pubOpid {
